@@ -1,1 +1,153 @@
-//! placeholder
+//! `StringLexer::next_tokens`: whitespace skipping and `TokenIterator` (C12, C13, C14, C15).
+use crate::common::*;
+use rustemo::{Context, Input, LRContext, Lexer, Position, SourceSpan, StringLexer, Token};
+
+macro_rules! ws_skip {
+    ($name:ident, $n:expr, $unwind:expr) => {
+        /// C14/C12/C15: with whitespace skipping on, after `next_tokens` the layout is exactly
+        /// the maximal whitespace prefix at the old position (None when empty), and the position
+        /// has advanced by it (offset, line, column) - i.e. it points at the first non-layout
+        /// byte. Arbitrary valid UTF-8 of at most N bytes, arbitrary char-boundary start.
+        #[kani::proof]
+        #[kani::unwind($unwind)]
+        #[kani::stub(std::env::var_os, no_env)]
+        pub fn $name() {
+            let mut buf = [0u8; $n];
+            let s: &str = any_str::<$n>(&mut buf);
+            let p = any_pos_in(s);
+            static RECS: [Rec; 1] = [Rec(None)];
+            let lexer: StringLexer<Ctx, St, Tk, Rec, 1> = StringLexer::new(true, &RECS);
+            let mut ctx: Ctx = LRContext::new(p);
+            let stale: bool = kani::any();
+            if stale {
+                // a layout left over from an earlier step must not survive
+                ctx.set_layout_ahead(Some(&s[..0]));
+            }
+            let it = lexer.next_tokens(&mut ctx, s, Vec::new());
+            // reference: maximal whitespace prefix
+            let mut wl = 0usize;
+            for c in s[p.pos..].chars() {
+                if c.is_whitespace() {
+                    wl += c.len_utf8();
+                } else {
+                    break;
+                }
+            }
+            let np = ctx.position();
+            assert!(np.pos == p.pos + wl, "C14 position advances by exactly the whitespace prefix");
+            assert!(s.is_char_boundary(np.pos), "C15 position stays on a char boundary");
+            let want = ref_position_after(&s.as_bytes()[p.pos..p.pos + wl], p);
+            assert!(np == want, "C12 line/column follow the skipped text");
+            match ctx.layout_ahead() {
+                Some(l) => {
+                    assert!(wl > 0, "C14 no layout recorded when nothing is skipped");
+                    assert!(l.len() == wl, "C14 layout is the whole whitespace prefix");
+                    assert!(l.as_ptr() == s[p.pos..].as_ptr(), "C14 layout is the slice of the input at the old position");
+                }
+                None => assert!(wl == 0, "C14 skipped whitespace is recorded as layout"),
+            }
+            if np.pos < s.len() {
+                let c = s[np.pos..].chars().next().unwrap();
+                assert!(!c.is_whitespace(), "C12 position is the first non-layout char");
+            }
+            kani::cover!(wl >= 2 && np.pos < s.len(), "whitespace then text");
+            kani::cover!(wl == 0 && stale, "stale layout cleared");
+            kani::cover!(wl >= 2 && s.as_bytes()[p.pos] >= 0x80, "multi-byte whitespace");
+            kani::cover!(wl >= 1 && s.as_bytes()[p.pos] == b'\n' && p.line_col.is_some(), "newline skipped");
+            std::mem::forget(it);
+        }
+    };
+}
+ws_skip!(ws_skip_4, 4, 7);
+ws_skip!(ws_skip_6, 6, 9);
+
+macro_rules! token_iter {
+    ($name:ident, $n:expr, $unwind:expr) => {
+        /// C13/C15/C06: `TokenIterator` over three expected terminals with arbitrary-prefix
+        /// recognizers on arbitrary UTF-8: every token's value is the very slice of the input at
+        /// its span, the span starts at the lexing position and ends at position_after, tokens
+        /// come in the expected order, and - the documented meaning of the finish flag
+        /// (`LRState::sorted_terminals`) - no further terminal is tried after a flagged one once
+        /// something has matched at this location.
+        #[kani::proof]
+        #[kani::unwind($unwind)]
+        #[kani::stub(std::env::var_os, no_env)]
+        pub fn $name() {
+            let mut buf = [0u8; $n];
+            let s: &str = any_str::<$n>(&mut buf);
+            let p = any_pos_in(s);
+            let m: [Option<usize>; 3] = kani::any();
+            let fin: [bool; 3] = kani::any();
+            for i in 0..3 {
+                if let Some(l) = m[i] {
+                    // contract of TokenRecognizer::recognize: a prefix of the remaining input
+                    kani::assume(l <= s.len() - p.pos && s.is_char_boundary(p.pos + l));
+                }
+            }
+            let recs: &'static [Rec; 4] = Box::leak(Box::new([Rec(None), Rec(m[0]), Rec(m[1]), Rec(m[2])]));
+            let lexer: StringLexer<Ctx, St, Tk, Rec, 4> = StringLexer::new(false, recs);
+            let mut ctx: Ctx = LRContext::new(p);
+            let mut exp = Vec::with_capacity(3);
+            exp.push((Tk(1), fin[0]));
+            exp.push((Tk(2), fin[1]));
+            exp.push((Tk(3), fin[2]));
+            let mut it = lexer.next_tokens(&mut ctx, s, exp);
+            assert!(ctx.position() == p, "C13 lexing without skipping does not move the position");
+            assert!(ctx.layout_ahead().is_none());
+            // expected sequence
+            let mut want: [Option<(u8, usize)>; 3] = [None, None, None];
+            let mut k = 0;
+            let mut i = 0;
+            while i < 3 {
+                if let Some(l) = m[i] {
+                    want[k] = Some((i as u8 + 1, l));
+                    k += 1;
+                }
+                if fin[i] && k > 0 {
+                    break;
+                }
+                i += 1;
+            }
+            let mut j = 0;
+            while j < 4 {
+                let t = it.next();
+                match (t, if j < 3 { want[j] } else { None }) {
+                    (Some(t), Some((kind, l))) => {
+                        assert!(t.kind.0 == kind, "C06 tokens come in the expected order");
+                        assert!(t.value.len() == l);
+                        assert!(t.value.as_ptr() == s[p.pos..].as_ptr(), "C13 value is the very slice of the input");
+                        assert!(t.span.start == p, "C13 span starts at the lexing position");
+                        assert!(t.span.end == ref_position_after(&s.as_bytes()[p.pos..p.pos + l], p), "C13 span ends after the value");
+                        assert!(&s[t.span.start.pos..t.span.end.pos] == t.value, "C13 value = input[span]");
+                    }
+                    (None, None) => {}
+                    _ => assert!(false, "C06 one token per matching expected terminal, none after a finish flag once something matched"),
+                }
+                j += 1;
+            }
+            kani::cover!(k == 3, "three tokens at one position");
+            kani::cover!(k == 1 && m[0].is_some() && m[1].is_some(), "finish flag stops the iteration");
+            kani::cover!(k == 1 && m[0].is_some() && m[1].is_none() && fin[1] && m[2].is_some(), "flag on a non-matching terminal after a match");
+            kani::cover!(m[0] == Some(0), "empty match");
+            std::mem::forget(it);
+        }
+    };
+}
+token_iter!(token_iter_4, 4, 8);
+token_iter!(token_iter_6, 6, 10);
+
+/// Vacuity twin.
+#[kani::proof]
+#[kani::unwind(7)]
+#[kani::stub(std::env::var_os, no_env)]
+pub fn lexer_twin_must_fail() {
+    let mut buf = [0u8; 4];
+    let s: &str = any_str::<4>(&mut buf);
+    let p = any_pos_in(s);
+    static RECS: [Rec; 1] = [Rec(None)];
+    let lexer: StringLexer<Ctx, St, Tk, Rec, 1> = StringLexer::new(true, &RECS);
+    let mut ctx: Ctx = LRContext::new(p);
+    let it = lexer.next_tokens(&mut ctx, s, Vec::new());
+    std::mem::forget(it);
+    assert!(false, "twin: reachable end of harness");
+}
